@@ -75,7 +75,16 @@ pub fn c04(opts: &Opts, out: &mut Out) {
     let mut kinds = std::collections::BTreeSet::new();
     let mut npert = 0u64;
     for (idx, (n, m, cap, t, class, seeded, kind)) in lat.pts.iter().enumerate() {
-        let inst = fmrun::random_inst(*n, *m, *cap, *t, *class, *seeded, &mut rng);
+        let mut inst = fmrun::random_inst(*n, *m, *cap, *t, *class, *seeded, &mut rng);
+        // every other aggregated point: two EQUAL commitments (same value, same mask) under DIFFERENT promises — each
+        // position's promise must be bound, whatever the commitments look like
+        if *m >= 2 && idx % 2 == 0 {
+            inst.values[0] = inst.values[0].max(1);
+            inst.values[1] = inst.values[0];
+            inst.blindings[1] = inst.blindings[0].clone();
+            inst.promises[0] = None;
+            inst.promises[1] = Some(1);
+        }
         let key = inst.describe();
         let stmt = inst.statement();
         // prover run with the tap
